@@ -321,6 +321,69 @@ Proof. apply (de_wf _ _ (prune_dep_equiv p required output)). Qed.
 Theorem prune_kind p required output : pkind (prune_plan p required output) = pkind p.
 Proof. apply (de_kind _ _ (prune_dep_equiv p required output)). Qed.
 
+(** Argument edges (PositionalArg / KeywordArg) of surviving nodes are untouched by prune_plan: a literal
+    that is an argument of something is never elided, and the only edges added are Dependency edges. *)
+Lemma plt_arg_edges_kept p l e :
+  In e (pedges p) -> ekind e <> KDep -> In (edst e) (pnodes (prune_literal_if_trivial p l)) ->
+  In e (pedges (prune_literal_if_trivial p l)).
+Proof.
+  intros He Hk Hd. rewrite plt_spec in *. destruct (trivial_literal p l) eqn:T; [|assumption].
+  apply elide_nodes in Hd. destruct Hd as [_ Hd].
+  unfold elide. apply remove_node_In. split; [apply add_edges_In; now right|]. split; [|assumption].
+  intros Hs. unfold trivial_literal in T. apply andb_true_iff in T. destruct T as [T _].
+  rewrite forallb_forall in T. assert (Ho : In e (out_edges p l)) by (apply out_edges_In; now split).
+  specialize (T e Ho). destruct (ekind e); try discriminate. now apply Hk.
+Qed.
+
+Lemma plt_arg_edges_sub p l e :
+  In e (pedges (prune_literal_if_trivial p l)) -> ekind e <> KDep -> In e (pedges p).
+Proof.
+  intros He Hk. destruct (plt_cases p l) as [E | E]; rewrite E in He; [assumption|].
+  unfold elide in He. apply remove_node_In in He. destruct He as [He _].
+  apply add_edges_In in He. destruct He as [He | He]; [|assumption].
+  apply bypass_edges_In in He. destruct He as [_ [_ Hd]]. contradiction.
+Qed.
+
+Lemma fold_plt_arg_edges_kept lits : forall p e,
+  In e (pedges p) -> ekind e <> KDep ->
+  In (edst e) (pnodes (fold_left prune_literal_if_trivial lits p)) ->
+  In e (pedges (fold_left prune_literal_if_trivial lits p)).
+Proof.
+  induction lits as [|l lits IH]; intros p e He Hk Hd; cbn in *; [assumption|].
+  apply IH; try assumption. apply plt_arg_edges_kept; try assumption.
+  now apply (de_sub _ _ (fold_plt_dep_equiv lits _)) in Hd.
+Qed.
+
+Lemma fold_plt_arg_edges_sub lits : forall p e,
+  In e (pedges (fold_left prune_literal_if_trivial lits p)) -> ekind e <> KDep -> In e (pedges p).
+Proof.
+  induction lits as [|l lits IH]; intros p e He Hk; cbn in *; [assumption|].
+  apply (plt_arg_edges_sub p l); [|assumption]. now apply IH.
+Qed.
+
+(** every argument edge into a surviving node survives, with its key *)
+Theorem prune_arg_edges_kept p required output e :
+  In e (pedges p) -> ekind e <> KDep ->
+  In (edst e) (pnodes (prune_plan p required output)) ->
+  In e (pedges (prune_plan p required output)).
+Proof.
+  intros He Hk Hd. unfold prune_plan in *. apply fold_plt_arg_edges_kept; try assumption.
+  apply (de_sub _ _ (fold_plt_dep_equiv _ _)) in Hd. apply restrict_nodes in Hd. destruct Hd as [_ Hd].
+  assert (Hs : In (esrc e) (all_ancestors (to_graph p) (prune_roots required output))).
+  { apply (keep_closed p _ (esrc e) (edst e)); [now apply pedge_of_In | assumption]. }
+  unfold restrict. apply remove_nodes_In. split; [assumption|].
+  split; intros Hin; apply filter_In in Hin; destruct Hin as [_ E]; apply negb_true_iff in E;
+    [apply inb_In in Hs | apply inb_In in Hd]; congruence.
+Qed.
+
+(** and pruning adds only Dependency edges *)
+Theorem prune_arg_edges_sub p required output e :
+  In e (pedges (prune_plan p required output)) -> ekind e <> KDep -> In e (pedges p).
+Proof.
+  intros He Hk. unfold prune_plan in He. apply fold_plt_arg_edges_sub in He; [|assumption].
+  unfold restrict in He. apply remove_nodes_In in He. tauto.
+Qed.
+
 (** * prune_source_literals *)
 Lemma source_literals_In p pred n :
   In n (source_literals p pred) <->
